@@ -70,6 +70,8 @@ OCarriers(doc, x, k) ==
   IF Len(bt) = 0 THEN {j \in Idx(doc, {"E"}) : EdgeCarries(AsGeo(doc[j]), w[k], w[k + 1], "")}
   ELSE IF Len(bt) = 1 THEN {j \in ENamed(doc, bt[1].id) : EdgeCarries(AsGeo(doc[j]), w[k], w[k + 1], bt[1].o)}
   ELSE {}
+\* traversal sign the O line gives for step k ("" = the edge is implied)
+OSign(doc, x, k) == LET bt == OBetween(doc, x, k) IN IF Len(bt) = 1 THEN bt[1].o ELSE ""
 \* an O line this check makes claims about: begins and ends with a segment,
 \* every item is a segment or a dovetail E line, every step has a carrier
 OModelled(doc, x) ==
@@ -96,8 +98,10 @@ Path12(doc, x, y, outdoc) ==
         ELSE IF Len(bt) > 1 THEN FALSE
         ELSE \E j \in car :
                LET l == AsG1(doc[j]) IN
-               /\ \/ bt[1].o = "+" /\ LinkDirect(l, w[k], w[k + 1], FALSE, <<>>)
-                  \/ bt[1].o = "-" /\ LinkCompl(l, w[k], w[k + 1], FALSE, <<>>)
+               \* the sign selects the link or its complement: the one read must go
+               \* from w[k] to w[k+1] *with the overlap the path states* (a hairpin
+               \* link and its complement join the same oriented segments)
+               /\ LinkReads(l, bt[1].o, w[k], w[k + 1], PHasOv(x, k), POv(x, k))
                /\ IF doc[j].name # "*" THEN bt[1].id = doc[j].name
                   ELSE IF outdoc = <<>> THEN bt[1].id \notin Names(doc) /\ bt[1].id # "*"
                   ELSE \E e \in ENamed(outdoc, bt[1].id) : PathKey(AsGeo(outdoc[e])) = G1Key(l)
@@ -115,7 +119,8 @@ Path21(doc, x, y) ==
         \/ ~PHasOv(y, k)
         \/ \E j \in OCarriers(doc, x, k) :
              LET g == AsGeo(doc[j]) IN
-             ~g.star /\ y.ovs[k] \in OvOfLinkFor(EdgeToLink(g), w[k], w[k + 1])
+             \* the overlap read in the direction the O line traverses the edge
+             ~g.star /\ y.ovs[k] \in EdgeReadOvs(g, OSign(doc, x, k), w[k], w[k + 1])
       ok == /\ PShapeOK(y)
             /\ PWalk(y) = w
             /\ \A k \in 1..(Len(w) - 1) : StepOK(k)
@@ -128,7 +133,10 @@ PathBack1(doc, x, y) ==
   /\ PWalk(y) = PWalk(x)
   /\ \A k \in 1..(Len(PWalk(x)) - 1) :
        \/ ~PHasOv(y, k)
-       \/ \E j \in PCarriers(doc, x, k) : y.ovs[k] \in OvOfLinkFor(AsG1(doc[j]), PWalk(x)[k], PWalk(x)[k + 1])
+       \* an overlap the path stated comes back as it was (not as its complement)
+       \/ PHasOv(x, k) /\ PCarriers(doc, x, k) # {} /\ y.ovs[k] = x.ovs[k]
+       \/ ~PHasOv(x, k) /\ \E j \in PCarriers(doc, x, k) :
+                               y.ovs[k] \in OvOfLinkFor(AsG1(doc[j]), PWalk(x)[k], PWalk(x)[k + 1])
 PathBack2(doc, x, y) ==
   /\ y.rt = "O" /\ y.name = x.name /\ TagSet(y) = TagSet(x)
   /\ LET w == OSegs(doc, x)
@@ -142,6 +150,10 @@ PathBack2(doc, x, y) ==
           \/ Len(bt) = 1 /\ \E j \in OCarriers(doc, x, k) :
                               /\ EdgeCarries(AsGeo(doc[j]), w[k], w[k + 1], bt[1].o)
                               /\ (doc[j].name # "*" => bt[1].id = doc[j].name)
+                              \* same reading of the alignment as the traversal x gave
+                              /\ (OSign(doc, x, k) # "" =>
+                                    EdgeReadOvs(AsGeo(doc[j]), bt[1].o, w[k], w[k + 1])
+                                      = EdgeReadOvs(AsGeo(doc[j]), OSign(doc, x, k), w[k], w[k + 1]))
 
 -----------------------------------------------------------------------------
 (* one record against its converted counterpart *)
